@@ -115,6 +115,11 @@ func Catalogue() map[string]Script {
 		mk("c07:eof-wakes-all", 4, 0, res(0, 1), res(1, 2), res(2, 3), start(0), start(1), start(2), wok(0), wok(1), eof, wok(2))
 		mk("c07:write-error-wakes-all", 4, 0, res(0, 1), res(1, 2), start(0), start(1), wok(0), werr(1))
 		mk("c07:close-wakes-all", 4, 0, res(0, 1), res(1, 2), start(0), start(1), wok(0), cls, wok(1))
+		for _, n := range []string{"c07:eof-wakes-all", "c07:write-error-wakes-all", "c07:close-wakes-all"} {
+			sc := m[n+sfx]
+			sc.SlowClose = true
+			m[n+":slow-socket-close"+sfx] = sc
+		}
 		mk("c07:cancel-wakes-one", 4, 0, res(0, 1), res(1, 2), start(0), start(1), wok(0), wok(1), cancel(1))
 		mk("c07:silence-blocks", 4, 0, res(0, 1), start(0), wok(0))
 		exp := Action{K: AExpire}
@@ -138,7 +143,7 @@ func Catalogue() map[string]Script {
 // focus shifts the weights: "C01" many callers and replies, "C02" holds and
 // faults right after replies, "C09" reservations around the limit.
 func RandomNext(r *hx.RNG, focus string, maxSteps int) (Script, func(v *View) *Action) {
-	s := Script{MaxCq: hx.Pick(r, []int{1, 2, 2, 3, 4, 8}), TCP: r.Chance(4, 5),
+	s := Script{SlowClose: r.Chance(1, 5), MaxCq: hx.Pick(r, []int{1, 2, 2, 3, 4, 8}), TCP: r.Chance(4, 5),
 		Nq0: hx.Pick(r, []uint16{0, 0, 1, 65533, 65534, 65535, uint16(r.Intn(65536))})}
 	ncalls := r.Range(2, 7)
 	if focus == "C09" {
